@@ -450,11 +450,11 @@ theorem findRenew_v2_congr (h h' : Bytes → Bytes) (rs rs' : Bytes) (hr : h rs 
     by_cases hm : (l.renew == h' rs') = true <;> simp [hm]
 
 theorem imm_findRenew_v2_congr (h h' : Bytes → Bytes) (rs rs' : Bytes) (hr : h rs = h' rs') (L : List Lease) (i : Nat) :
-    Imm.findRenew h .v2 rs L i = Imm.findRenew h' .v2 rs' L i := by
+    ImmL.findRenew h .v2 rs L i = ImmL.findRenew h' .v2 rs' L i := by
   induction L generalizing i with
   | nil => rfl
   | cons l rest ih =>
-    unfold Imm.findRenew
+    unfold ImmL.findRenew
     rw [ih]
     simp only [isRenewSecret, hr]
     by_cases hm : (l.renew == h' rs') = true <;> simp [hm]
